@@ -286,6 +286,7 @@ class FakeAgent:
         self.seen = {}              # serial -> parsed request
         self.anon = 0
         self.auto = False
+        self.real_sign = False
 
     def start(self):
         async def go():
@@ -384,7 +385,15 @@ class FakeAgent:
         if kind == 'sign':
             if lk or q['key'] not in self.store:
                 return no
-            sig = sig_bytes(q['key'], q['data'], q['flags'])
+            if self.real_sign:
+                name = 'rsa' if q['key'] == 'cert' else q['key']
+                alg = keys()[name]['alg']
+                if name == 'rsa':
+                    alg = b'rsa-sha2-256' if q['flags'] & 2 else \
+                        b'rsa-sha2-512' if q['flags'] & 4 else b'ssh-rsa'
+                sig = keys()[name]['priv'].sign(q['data'], alg)
+            else:
+                sig = sig_bytes(q['key'], q['data'], q['flags'])
             return T_SIG, sstr(sig), sig
         if kind == 'add':
             if lk or q['key'] is None:
@@ -594,6 +603,7 @@ class ClientWorld:
         self.by_task = {}
         self.gates = []             # [(serial, future)] connection attempts
         self.connects = []          # [(cid, serial)] streams handed out
+        self.next_agent, self.dead = 0, 0
         self.wlog, self.rlog, self.closes = [], [], []
         self.l1 = []
         self.l2 = []
@@ -610,9 +620,16 @@ class ClientWorld:
             self.agent.start()
             self._patch()
             self.client = SSHAgentClient(self.path)
-        else:
+        elif transport == 'fwd':
             self._start_pair(workdir, init_store)
             self.client = SSHAgentClient(_Adapter(self))
+        else:
+            # 'fwdpath': a process on the server connects to the path of
+            # the agent listener (what SSH_AUTH_SOCK points to over there)
+            self._start_pair(workdir, init_store)
+            self._patch()
+            self.client = SSHAgentClient(
+                self.pair.sconn.get_agent_path() or '/x04/no-listener')
 
     # ---- plumbing ----------------------------------------------------------
     def serial_of_task(self):
@@ -636,6 +653,19 @@ class ClientWorld:
             self.gates[:] = [g for g in self.gates if g[1] is not fut]
         return s
 
+    def new_cid(self, serial):
+        """identity of a stream pair handed to the client: the index of the
+        connection the fake agent accepts for it, negative when it cannot
+        reach the agent (path of the forwarding listener, agent down)"""
+        if self.agent.listening:
+            cid = self.next_agent
+            self.next_agent += 1
+        else:
+            self.dead += 1
+            cid = -self.dead
+        self.connects.append((cid, serial))
+        return cid
+
     def _patch(self):
         world = self
         self._old_open = _agentmod.open_agent
@@ -644,8 +674,7 @@ class ClientWorld:
         async def gated_open(agent_path):
             s = await world._gate()
             reader, writer = await orig(agent_path)
-            cid = len(world.connects)
-            world.connects.append((cid, s))
+            cid = world.new_cid(s)
             return TapReader(reader, world, cid), TapWriter(writer, world, cid)
 
         _agentmod.open_agent = gated_open
@@ -785,6 +814,8 @@ class ClientWorld:
                 c.outcome = ('lost', f'ChannelOpenError: {exc.reason}')
                 if self.transport != 'fwd':
                     c.outcome = ('exc', repr(exc))
+                else:
+                    self.notes.append('ChannelOpenError')
             except BaseException as exc:    # pylint: disable=broad-except
                 c.outcome = ('exc', f'{type(exc).__name__}: {exc}')
             else:
@@ -819,7 +850,7 @@ class ClientWorld:
         """the connection the client is (or was last) writing on"""
         if self.wlog:
             cid = self.wlog[-1][0]
-            if cid < len(self.agent.conns):
+            if 0 <= cid < len(self.agent.conns):
                 return self.agent.conns[cid]
         return self.agent.conns[-1] if self.agent.conns else None
 
@@ -1052,10 +1083,14 @@ class ClientWorld:
                     cs.outcome[0] not in ('ok', 'fail', 'unk', 'dec'):
                 continue            # its outcome does not come from a frame
             foreign.add(s)
-            # once a connection is out of step it stays so: the later
-            # mismatches have the cause of the first
+            # once a connection is out of step it stays so: whoever uses it
+            # after a caller was cancelled with its answer outstanding
+            order = writes.get(cid, [])
+            before = order[:order.index(s)] if s in order else order
             defect = desync.setdefault(
-                cid, 'cancel_keeps_connection' if own in cancelled else 'none')
+                cid, 'cancel_keeps_connection'
+                if own in cancelled or any(e in cancelled for e in before)
+                else 'none')
             self.flag(
                 'OwnResponse',
                 f'call {s} ({cs.kind if cs else "?"}, caller '
@@ -1249,8 +1284,7 @@ class _Adapter:
         w = self.world
         s = await w._gate()
         reader, writer = await w.pair.sconn.open_agent_connection()
-        cid = len(w.connects)
-        w.connects.append((cid, s))
+        cid = w.new_cid(s)
         return TapReader(reader, w, cid), TapWriter(writer, w, cid)
 
 
@@ -2089,6 +2123,90 @@ def misc_cases():
         for c in agent.conns:
             c.close()
         close_loop(loop)
+        if old_env is not None:
+            os.environ['SSH_AUTH_SOCK'] = old_env
+    return bad
+
+
+def auth_cases(workdir):
+    """log in with keys only the agent holds (fake agent answering at once
+    with REAL signatures); -> [(clause, detail)]"""
+    bad = []
+    kk = keys()
+    tmp = tempfile.mkdtemp(prefix='X04a', dir=workdir)
+    old_env = os.environ.get('SSH_AUTH_SOCK')
+    os.environ.pop('SSH_AUTH_SOCK', None)
+    hostkey = asyncssh.generate_private_key('ssh-ed25519')
+    cases = [
+        # (name, authorized key, server signature_algs, agent_identities,
+        #  expected (key, flags) of the sign requests, in order)
+        ('rsa key, default algorithms', 'rsa', None, None,
+         [('rsa', 2)]),
+        ('rsa key, server wants rsa-sha2-512', 'rsa', ['rsa-sha2-512'], None,
+         [('rsa', 4)]),
+        ('ed25519 key', 'ed', None, None, [('ed', 0)]),
+        ('agent_identities names the rsa key', 'rsa', None, 'rsa',
+         [('rsa', 2)]),
+    ]
+    try:
+        for name, auth, sigalgs, ident, want in cases:
+            loop = new_loop()
+            path = f'/x04/auth-agent-{os.getpid()}'
+            agent = FakeAgent(loop, path, ('ed', 'rsa'))
+            agent.auto = agent.real_sign = True
+            agent.start()
+            akeys = os.path.join(tmp, 'authorized_keys')
+            with open(akeys, 'wb') as f:
+                f.write(kk[auth]['priv'].export_public_key('openssh'))
+            skw = dict(server_host_keys=[hostkey],
+                       authorized_client_keys=akeys)
+            if sigalgs:
+                skw['signature_algs'] = sigalgs
+            ckw = dict(known_hosts=None, config=None, username='u',
+                       agent_path=path, client_keys=[])
+            if ident:
+                ckw['agent_identities'] = [kk[ident]['blob']]
+            got = {}
+
+            async def go():
+                srv = await asyncssh.listen('127.0.0.1', 2222, **skw)
+                try:
+                    conn = await asyncssh.connect('127.0.0.1', 2222, **ckw)
+                    got['user'] = conn.get_extra_info('username')
+                    conn.close()
+                    await conn.wait_closed()
+                finally:
+                    srv.close()
+            try:
+                loop.run_until_complete(go())
+                how = 'ok'
+            except Deadlock:
+                how = 'hang'
+            except BaseException as exc:    # pylint: disable=broad-except
+                how = f'{type(exc).__name__}: {exc}'
+            loop.run_until_idle()
+            signs = [(a['req'].get('key'), a['req'].get('flags'))
+                     for a in agent.answers.values()
+                     if a['req'] and a['req'].get('kind') == 'sign']
+            lists = sum(1 for a in agent.answers.values()
+                        if a['req'] and a['req'].get('kind') == 'list')
+            if how != 'ok':
+                bad.append(('AuthThroughAgent', f'{name}: login failed: '
+                            f'{how}; sign requests {signs}'))
+            elif signs[-len(want):] != want or lists != 1:
+                bad.append(('AuthThroughAgent', f'{name}: sign requests '
+                            f'{signs} (identity lists: {lists}), expected '
+                            f'the last to be {want}'))
+            elif ident and any(k != ident for k, _ in signs):
+                bad.append(('AuthThroughAgent', f'{name}: other keys than '
+                            f'{ident} were tried: {signs}'))
+            elif not all(c.eof_in or c.lost for c in agent.conns):
+                bad.append(('AuthThroughAgent', f'{name}: the connection to '
+                            'the agent survives the SSH connection'))
+            agent.stop()
+            close_loop(loop)
+    finally:
+        shutil.rmtree(tmp, ignore_errors=True)
         if old_env is not None:
             os.environ['SSH_AUTH_SOCK'] = old_env
     return bad
